@@ -38,6 +38,24 @@ def canon_outs(outs):
             res.append(o)
     return res + sorted(run)
 
+def tabop_to_val(o):
+    if o[0] == 'start': return [0, o[1]]
+    if o[0] == 'ins': return [1, o[1], o[2], o[3], o[4], 1 if o[5] else 0]
+    return [2, o[1]]
+
+def tabop_to_coq(o):
+    if o[0] == 'start': return '(TStart %s)' % cN(o[1])
+    if o[0] == 'ins': return '(TInsert %s %s %s %s %s)' % (cN(o[1]), cN(o[2]), cN(o[3]), cN(o[4]), cbool(o[5]))
+    return '(TEnd %s)' % cN(o[1])
+
+def sysev_to_val(e):
+    if e[0] == 'rd': return [0, in_to_val(e[1])]
+    return [1, e[1], e[2], e[3], e[4], 1 if e[5] else 0]
+
+def sysev_to_coq(e):
+    if e[0] == 'rd': return '(EvRd %s)' % in_to_coq(e[1])
+    return '(EvInsert %s %s %s %s %s)' % (cN(e[1]), cN(e[2]), cN(e[3]), cN(e[4]), cbool(e[5]))
+
 # ------------------------------------------------------- Spec (python mirror)
 def cfg_fams(cfg, p):
     for k, v in cfg:
@@ -96,21 +114,39 @@ class Prop:
 
     # ---- rendering
     def case_to_val(self, c):
-        return [0, [[p, list(fs)] for p, fs in c['peers']], [] if c['dur'] is None else [c['dur']],
-                [in_to_val(i) for i in c['ins']]]
+        k = c.get('kind', 'rd')
+        if k == 'tab':
+            return [2, [tabop_to_val(o) for o in c['ops']]]
+        peers = [[p, list(fs)] for p, fs in c['peers']]
+        dur = [] if c['dur'] is None else [c['dur']]
+        if k == 'sys':
+            return [0, peers, dur, list(FAMS), [sysev_to_val(e) for e in c['evs']]]
+        return [0, peers, dur, [in_to_val(i) for i in c['ins']]]
 
     def case_to_coq(self, c):
+        k = c.get('kind', 'rd')
+        if k == 'tab':
+            return 'run_tab_case %s' % clist([tabop_to_coq(o) for o in c['ops']])
         peers = clist(['(%s, %s)' % (cN(p), clist([cN(f) for f in fs])) for p, fs in c['peers']])
-        return 'run_case %s %s %s' % (peers, copt(None if c['dur'] is None else cN(c['dur'])),
-                                      clist([in_to_coq(i) for i in c['ins']]))
+        dur = copt(None if c['dur'] is None else cN(c['dur']))
+        if k == 'sys':
+            return 'run_sys_case %s %s %s %s' % (peers, dur, clist([cN(f) for f in FAMS]),
+                                                 clist([sysev_to_coq(e) for e in c['evs']]))
+        return 'run_case %s %s %s' % (peers, dur, clist([in_to_coq(i) for i in c['ins']]))
 
     def case_to_json(self, c):
         return json.loads(json.dumps(c))
 
     def case_from_json(self, j):
         c = dict(j)
-        c['peers'] = [(p, list(fs)) for p, fs in j['peers']]
-        c['ins'] = [tuple(i) for i in j['ins']]
+        if 'peers' in j:
+            c['peers'] = [(p, list(fs)) for p, fs in j['peers']]
+        if 'ins' in j:
+            c['ins'] = [tuple(i) for i in j['ins']]
+        if 'ops' in j:
+            c['ops'] = [tuple(o) for o in j['ops']]
+        if 'evs' in j:
+            c['evs'] = [('rd', tuple(e[1])) if e[0] == 'rd' else tuple(e) for e in j['evs']]
         return c
 
     def corpus_cases(self):
@@ -200,24 +236,99 @@ class Prop:
                 else:
                     ins.append(('timer',))
             cases.append(dict(peers=cfg, dur=rng.choice([None, 1, 360]), ins=ins))
+        # -- D: the deferral slice of the RIB
+        ntab = 600 if tier == 'quick' else 6000
+        for _ in range(ntab):
+            ops = []
+            fams = rng.sample(F, rng.choice([1, 2, 2, 3]))
+            for f in fams:
+                if rng.random() < 0.8:
+                    ops.append(('start', f))
+            for _ in range(rng.randint(1, 12)):
+                x = rng.random()
+                f = rng.choice(fams if rng.random() < 0.9 else F)
+                if x < 0.72:
+                    ops.append(('ins', f, rng.randint(0, 3), rng.randint(1, 3), rng.choice([0, 0, 1]), rng.random() < 0.25))
+                elif x < 0.9:
+                    ops.append(('end', f))
+                else:
+                    ops.append(('start', f))
+            for f in fams:
+                if rng.random() < 0.7:
+                    ops.append(('end', f))
+            cases.append(dict(kind='tab', ops=ops))
+        # -- E: the composed system (real Global / TableManager / process_restarting_outputs)
+        nsys = 500 if tier == 'quick' else 5000
+        for _ in range(nsys):
+            npeer = rng.choice([1, 2, 2, 3])
+            cfg = [(p, rng.sample(F, rng.choice([0, 1, 2, 2, 3]))) for p in range(1, npeer + 1)]
+            c = mk_cfg(cfg)
+            evs, up = [], set()
+            wild = rng.random() < 0.15
+            for _ in range(rng.randint(3, 16)):
+                x = rng.random()
+                p = rng.randint(1, npeer)
+                if x < 0.45:
+                    evs.append(('ins', rng.choice(F), rng.randint(0, 2), rng.randint(1, 3), rng.choice([0, 0, 1]), False))
+                elif wild:
+                    evs.append(('rd', rng.choice(self.alphabet([p], F))))
+                elif x < 0.62:
+                    if p in up:
+                        evs.append(('rd', ('wd', p))); up.discard(p)
+                    else:
+                        evs.append(('rd', ('est', p, [f for f in cfg_fams(c, p) if rng.random() < 0.75]))); up.add(p)
+                elif x < 0.88 and up:
+                    evs.append(('rd', ('eor', rng.choice(sorted(up)), rng.choice(F))))
+                elif x < 0.94:
+                    evs.append(('rd', ('wd', p))); up.discard(p)
+                else:
+                    evs.append(('rd', ('timer',)))
+            cases.append(dict(kind='sys', peers=cfg, dur=rng.choice([None, 360, 360]), evs=evs))
         return cases
 
     # ---- running
     def run_impl(self, cases, tier):
-        return rustrun.daemon_test('C11', 'gr::verif_hx::verif_gr_cases', [self.case_to_val(c) for c in cases])
+        idx_sys = [k for k, c in enumerate(cases) if c.get('kind') == 'sys']
+        idx_gr = [k for k, c in enumerate(cases) if c.get('kind') != 'sys']
+        out = [None] * len(cases)
+        if idx_gr:
+            res, err = rustrun.daemon_test('C11', 'gr::verif_hx::verif_gr_cases',
+                                           [self.case_to_val(cases[k]) for k in idx_gr])
+            if res is None:
+                return None, err
+            for k, r in zip(idx_gr, res):
+                out[k] = r
+        if idx_sys:
+            res, err = rustrun.daemon_test('C11sys', 'event::verif_hx::gr_glue::verif_event_gr_cases',
+                                           [self.case_to_val(cases[k]) for k in idx_sys])
+            if res is None:
+                return None, err
+            for k, r in zip(idx_sys, res):
+                out[k] = r
+        return out, ''
 
     def run_model(self, cases, tier):
-        pre = 'From RB Require Import Base.Val Model.Deferral.\nOpen Scope N_scope.'
+        pre = 'From RB Require Import Base.Val Model.Deferral Model.DeferralRib.\nOpen Scope N_scope.'
         return coqrun.eval_terms('C11', pre, [self.case_to_coq(c) for c in cases], shards=8)
 
     def canon(self, case, obs):
         if obs == [-1]:
             return obs
+        k = case.get('kind', 'rd')
+        if k == 'tab':
+            return [[[r[0], sorted(r[1])] if r and r[0] == 2 else r, d] for r, d in obs]
+        if k == 'sys':
+            return [obs[0], obs[1], [[a, b, fl, sorted(ann)] for a, b, fl, ann in obs[2]]]
         return [canon_outs(obs[0]), obs[1], [[canon_outs(o), b] for o, b in obs[2]]]
 
     # ---- Spec oracle: judges the implementation's observations against the
     # property text (python mirror of Spec/DeferralSpec.v)
     def oracle(self, c, obs):
+        k = c.get('kind', 'rd')
+        if k == 'tab':
+            return oracle_tab(c, obs)
+        if k == 'sys':
+            return oracle_sys(c, obs)
         if obs == [-1]:
             return 'panic in RestartingDeferral'
         cfg = mk_cfg(c['peers'])
@@ -284,12 +395,29 @@ class Prop:
     def nontrivial_key(self, c, obs):
         if obs == [-1]:
             return ('panic',)
+        k = c.get('kind', 'rd')
+        if k == 'tab':
+            # non-trivial: something is inserted while deferring and later released
+            if any(r and r[0] == 2 and r[1] for r, _ in obs):
+                return ('tab', json.dumps(obs))
+            return None
+        if k == 'sys':
+            if obs[0] and any(st[3] for st in obs[2]):
+                return ('sys', json.dumps(c['peers']), json.dumps(obs[2]))
+            return None
         if not any(o[0] == 0 for o in obs[0]):
             return None
         traj = tuple((tuple(sorted(o[0] for o in outs)), b) for outs, b in obs[2])
         return (json.dumps(mk_cfg(c['peers'])), traj)
 
     def classify(self, c, obs):
+        k = c.get('kind', 'rd')
+        if k == 'tab':
+            return ['tab'] + ['tab_' + o[0] for o in c['ops']]
+        if k == 'sys':
+            tags = ['sys', 'sys_disciplined' if disciplined(mk_cfg(c['peers']), [e[1] for e in c['evs'] if e[0] == 'rd']) else 'sys_undisciplined']
+            if obs != [-1] and obs[2] and not obs[2][-1][0]: tags.append('sys_ends_cleared')
+            return tags + ['sys_' + (e[1][0] if e[0] == 'rd' else 'insert') for e in c['evs']]
         n = len(c['ins'])
         tags = ['len_%s' % ('0-3' if n <= 3 else '4-6' if n <= 6 else '7+'),
                 'disciplined' if disciplined(mk_cfg(c['peers']), c['ins']) else 'undisciplined']
@@ -305,3 +433,90 @@ class Prop:
 def was_blocked_by(cfg, hist, p):
     """p is still a pending helper (blocks some family) after hist"""
     return any(f in cfg_fams(cfg, p) and not any(unblocks(e, p, f) for e in hist) for f in FAMS)
+
+
+# ------------------------------------------------------------ RIB-slice oracle
+def oracle_tab(c, obs):
+    """insert returns NoChange while the family is deferring; end_deferral clears the flag and
+    emits every destination that has an unfiltered path exactly once (with all its paths)."""
+    if obs == [-1]:
+        return 'panic in Table start_deferral/insert/end_deferral'
+    deferring = {}
+    paths = {}          # (f, net) -> {(peer, pid): filtered}
+    for k, (o, (res, flag)) in enumerate(zip(c['ops'], obs)):
+        f = o[1]
+        if o[0] == 'start':
+            deferring[f] = True
+        elif o[0] == 'ins':
+            d = paths.setdefault((f, o[2]), {})
+            d[(o[3], o[4])] = o[5]
+            if deferring.get(f) and res != [0]:
+                return 'op %d: insert into deferring family %d returned a change' % (k, f)
+            if not deferring.get(f) and not o[5]:
+                n = len([1 for v in d.values() if not v])
+                if res != [1, o[2], n]:
+                    return 'op %d: unfiltered insert into non-deferring family not announced with its %d paths' % (k, n)
+        else:
+            deferring[f] = False
+            want = sorted([net, len([1 for v in d.values() if not v])] for (ff, net), d in paths.items()
+                          if ff == f and any(not v for v in d.values()))
+            if res[0] != 2 or sorted(res[1]) != want:
+                return 'op %d: end_deferral(%d) emitted %s, held prefixes are %s' % (k, f, res, want)
+        if bool(flag) != bool(deferring.get(f)):
+            return 'op %d: deferring flag of %d is %s' % (k, f, flag)
+    return None
+
+
+# ------------------------------------------------------- composed-system oracle
+def oracle_sys(c, obs):
+    """Nothing of a deferred family is distributed while a helper peer still holds it back and the timer
+    has not fired; at the moment it is released every prefix received meanwhile is distributed exactly
+    once; afterwards inserts are distributed at once; when no family is held any more the restarting
+    state (selection_deferral, table flags) is cleared."""
+    if obs == [-1]:
+        return 'panic in the restarting-speaker glue'
+    cfg = mk_cfg(c['peers'])
+    rdins = [e[1] for e in c['evs'] if e[0] == 'rd']
+    if not disciplined(cfg, rdins):
+        return None
+    deferred = set(f for _, fs in cfg for f in fs)
+    peers = [p for p, _ in cfg]
+    started, flags0, steps = obs
+    if bool(started) != bool(deferred):
+        return 'start-up: selection_deferral %s with deferred families %s' % (started, sorted(deferred))
+    if [bool(x) for x in flags0] != [f in deferred for f in FAMS]:
+        return 'start-up: table deferring flags %s' % flags0
+    hist = []
+    held = {f: (f in deferred) for f in FAMS}
+    timer_started = False
+    active = bool(deferred)
+    paths = {}
+    def blocked(f):
+        return any(f in cfg_fams(cfg, p) and not any(unblocks(e, p, f) for e in hist) for p in peers)
+    for k, (e, (rd_some, timer_some, flags, ann)) in enumerate(zip(c['evs'], steps)):
+        want = []
+        if e[0] == 'ins':
+            d = paths.setdefault((e[1], e[2]), set())
+            d.add((e[3], e[4]))
+            if not held[e[1]]:
+                want.append([e[1], e[2], len(d)])
+        else:
+            i = e[1]
+            if active:
+                if i[0] == 'est' and i[2] and any(f in cfg_fams(cfg, i[1]) and not any(unblocks(x, i[1], f) for x in hist) for f in FAMS):
+                    timer_started = True
+                hist.append(i)
+                fire = (i[0] == 'timer' and timer_started)
+                for f in FAMS:
+                    if held[f] and (fire or not blocked(f)):
+                        held[f] = False
+                        want += [[f, net, len(d)] for (ff, net), d in paths.items() if ff == f]
+                if not any(held.values()):
+                    active = False
+        if sorted(ann) != sorted(want):
+            return 'event %d: distributed %s, the property requires %s' % (k, sorted(ann), sorted(want))
+        if [bool(x) for x in flags] != [held[f] for f in FAMS]:
+            return 'event %d: table deferring flags %s, held families %s' % (k, flags, held)
+        if bool(rd_some) != active:
+            return 'event %d: restarting state present=%s, expected %s' % (k, rd_some, active)
+    return None
